@@ -25,18 +25,19 @@ theorem C01_field_exact {α} (p : List Char → Option α) (dflt : α) (ln : Nat
         simp only [hp] at h
         exact ⟨f, rfl, by rw [← (Prod.mk.inj h).1]; exact hp⟩
 
-/-- a missing or unparsable field yields the default together with an InvalidatingError anchored to the line -/
+/-- a missing or unparsable field yields the default together with an InvalidatingError (anchored to the line by
+`lexLine`, which attaches the line being lexed to every lexer diagnostic) -/
 theorem C01_field_default_flagged {α} (p : List Char → Option α) (dflt : α) (ln : Nat) (line : List Char) (a b : Nat)
     (h : byteLen line < b ∨ getBytes line a b = none ∨ ∃ f, getBytes line a b = some f ∧ p (trim f) = none) :
-    ∃ d, fieldW p dflt ln line a b = (dflt, [d]) ∧ d.level = .invalidating ∧ d.quoted = [(ln, line)] := by
+    ∃ d, fieldW p dflt ln line a b = (dflt, [d]) ∧ d.1 = ErrorLevel.invalidating := by
   unfold fieldW
   by_cases hl : byteLen line < b
-  · exact ⟨tooShort ln line, by simp [hl], rfl, rfl⟩
+  · exact ⟨tooShort ln line, by simp [hl], rfl⟩
   · simp only [hl, if_false]
     rcases h with h | h | ⟨f, hf, hp⟩
     · exact absurd h hl
-    · exact ⟨invalidData ln line, by simp [h], rfl, rfl⟩
-    · exact ⟨invalidData ln line, by simp [hf, hp], rfl, rfl⟩
+    · exact ⟨invalidData ln line, by simp [h], rfl⟩
+    · exact ⟨invalidData ln line, by simp [hf, hp], rfl⟩
 
 /-- a successfully returned structure is accompanied only by diagnostics that do not fail the level; in
 particular never by an InvalidatingError — so no record of it took a default for a numeric field -/
